@@ -49,11 +49,12 @@ type ReadRec struct {
 
 // Tape implements io.Reader.
 type Tape struct {
-	Script  []byte
-	TailKey uint64
-	Cap     int   // maximum bytes served; 0 means DefaultCap
-	Chunks  []int // cyclic plan of delivery sizes (0 = a (0,nil) read); nil: serve whole request
-	Fault   *Fault
+	Script   []byte
+	TailKey  uint64
+	Cap      int   // maximum bytes served; 0 means DefaultCap
+	MaxReads int   // maximum Read calls; 0 means 1<<22 (a call beyond it panics with CapExceeded)
+	Chunks   []int // cyclic plan of delivery sizes (0 = a (0,nil) read); nil: serve whole request
+	Fault    *Fault
 
 	// state
 	Pos      int // bytes consumed from the stream
@@ -112,6 +113,9 @@ func (t *Tape) capv() int {
 func (t *Tape) Read(p []byte) (int, error) {
 	idx := t.NReads
 	t.NReads++
+	if mr := t.MaxReads; (mr > 0 && idx >= mr) || idx >= 1<<22 {
+		panic(CapExceeded{t.Pos})
+	}
 	n := len(p)
 	var err error
 	if f := t.Fault; f != nil {
